@@ -2,6 +2,8 @@
 from ..rules_shape import floor_a, const_agree, req_dep, split_pipeline
 from ..rules_dep import run_dep
 from ..rules_signpair import run_signpair
+from ..rules_contract import public_precond
+from ..rules_tz import floor_print
 
 
 def run(ctx, rep):
@@ -13,3 +15,5 @@ def run(ctx, rep):
     req_dep(rep, prog)
     split_pipeline(rep, prog)
     const_agree(rep, prog)
+    public_precond(ctx, rep)
+    floor_print(rep, prog)
